@@ -267,3 +267,33 @@ def expand_locals(ctx, f, expr, depth=3):
                     return R(self.d - 1).visit(copy.deepcopy(bs[0]))
             return n
     return R(depth).visit(copy.deepcopy(expr))
+
+
+def proof_walker(ctx):
+    """The function that collects the proof nodes for HexaryTrie.get_proof, and its form:
+    ("acc")  _get_proof(self, node, trie_key, proven_len, last_proof), a recursion with an accumulating tuple;
+    ("gen")  a generator method that get_proof wraps in tuple(...) - the same walk yielding the nodes one by one
+             (what is left of the key travels in the key parameter)."""
+    from .model import AnalysisError
+    from .known_funcs import KNOWN_FUNCS
+    q = "trie.hexary:HexaryTrie._get_proof"
+    if q in ctx.P.funcs:
+        return ctx.P.funcs[q], "acc"
+    key = "proof-walker"
+    if key in ctx.cache:
+        if ctx.cache[key] is None:
+            raise AnalysisError("anchor vanished: function %s not found" % q)
+        return ctx.cache[key], "gen"
+    ctx.cache[key] = None
+    gp = ctx.P.funcs.get("trie.hexary:HexaryTrie.get_proof")
+    found = None
+    if gp is not None:
+        for n in ast.walk(gp.node):
+            if isinstance(n, ast.Call) and isinstance(n.func, ast.Name) and n.func.id in ("tuple", "list") and len(n.args) == 1 and isinstance(n.args[0], ast.Call):
+                for t in ctx.R.resolve_call(n.args[0], gp, count=False):
+                    if t.kind == "def" and t.func.is_generator and t.func.cls is gp.cls and t.func.qual not in KNOWN_FUNCS and len(t.func.params) == 3:
+                        found = t.func
+    ctx.cache[key] = found
+    if found is None:
+        raise AnalysisError("anchor vanished: function %s not found" % q)
+    return found, "gen"
